@@ -562,7 +562,7 @@ theorem finishFiber_frame (w : World) (f : Nat) (e : Bool) : Frame w (finishFibe
   refine ⟨rfl, rfl, rfl, ?_⟩
   intro g; unfold finishFiber; by_cases hg : g = f <;> simp [setFiber, hg]
 
-theorem loopRunTask_frame (w : World) : Frame w (loopRunTask w).1 := by
+theorem loopRunTask_frame (cfg : Cfg) (w : World) : Frame w (loopRunTask cfg w).1 := by
   unfold loopRunTask
   cases hq : w.runq with
   | nil => exact Frame.refl w
@@ -588,14 +588,14 @@ theorem loopRunTask_frame (w : World) : Frame w (loopRunTask w).1 := by
       split
       · by_cases hg : g = t.fiber <;> simp [setFiber, hg]
       · split
-        · by_cases hg : g = t.fiber <;> simp [setFiber, hg]
-        · split <;> (by_cases hg : g = t.fiber <;> simp [setFiber, hg])
+        · by_cases hg : g = t.fiber <;> simp [setFiber, hg] <;> (split <;> omega)
+        · split <;> (by_cases hg : g = t.fiber <;> simp [setFiber, hg] <;> (split <;> omega))
 
 theorem Conserved.frame {w w' : World} (h : Frame w w') (hc : Conserved w) : Conserved w' :=
   Conserved.congr h.pushed h.handed (fun c => by rw [h.chans]) hc
 
-theorem loopRunTask_conserved (w : World) (hc : Conserved w) : Conserved (loopRunTask w).1 :=
-  Conserved.frame (loopRunTask_frame w) hc
+theorem loopRunTask_conserved (cfg : Cfg) (w : World) (hc : Conserved w) : Conserved (loopRunTask cfg w).1 :=
+  Conserved.frame (loopRunTask_frame cfg w) hc
 
 theorem loopTimers_conserved (w : World) (hc : Conserved w) : Conserved (loopTimers w) :=
   Conserved.frame (loopTimers_frame w) hc
@@ -604,7 +604,7 @@ theorem step_conserved (cfg : Cfg) (w : World) (a : Action) (hc : Conserved w) :
   unfold step
   cases hcur : w.current with
   | none =>
-    cases a <;> simp only [] <;> (first | exact hc | exact loopRunTask_conserved w hc | exact loopTimers_conserved w hc | exact Conserved.congr rfl rfl (fun _ => rfl) hc)
+    cases a <;> simp only [] <;> (first | exact hc | exact loopRunTask_conserved cfg w hc | exact loopTimers_conserved w hc | exact Conserved.congr rfl rfl (fun _ => rfl) hc)
   | some f =>
     cases a with
     | go g =>
